@@ -132,6 +132,43 @@ CHECKS["C20"] = dict(
     note="trusted: Python codecs; the evaluator of sa/. Two genuine dead names (C-i, 'M- ') are recorded as known findings.",
     design="DESIGN.md section 3 C20")
 
+CHECKS["C02"] = dict(
+    technique="terminal-effect token extraction + per-path protocol rules over the render loops (path enumeration with feasibility pruning), argument->parameter->store dataflow for the size record, who-may-write the cache",
+    text="Every write of FullscreenWindow.render_to_terminal is classified by the blessed capability it names and the loop "
+         "bodies are checked path by path: draw = move,text,clear_eol exactly when shorter than the width; every path "
+         "records the row; skip only under equality with the cached content of the same row; rows below the array blanked "
+         "unless a non-empty cache knows nothing about them; cache dropped when height OR width changed and each dimension "
+         "recorded under its own name; per-call record committed after the loops and written by nobody else; cursor moved "
+         "last; rows iterated and text written are bounded by the terminal size (never scrolls); the equality used is "
+         "FmtStr.__eq__ on terminal strings (C19's H1 re-run).",
+    note="trusted: blessed capabilities and terminal semantics behave as named (pending-wrap at the last column); not "
+         "decided: what the terminal shows, wide characters, exceptions in the middle of a render",
+    design="DESIGN.md section 3 C02")
+CHECKS["C07"] = dict(
+    technique="terminal-effect token extraction + per-path protocol rules, scroll accounting per path, affine-form check of the recorded cursor row, who-may-write top_usable_row",
+    text="The non-scrolling part obeys C02's draw/record/skip/blank/invalidate/commit rules on rows range(top_usable_row, "
+         "height); every path of the surplus-line loop has one scroll, exactly one of top_usable_row -= 1 (guarded by a test "
+         "of that same attribute > 0) / offscreen_scrolls += 1, a re-key of the record by -1 and a draw on the bottom row; "
+         "the function returns the off-screen count; every MOVE addresses a window row, the bottom row or the recorded cursor "
+         "row; the recorded cursor row is the affine form cursor_pos[0] - offscreen + top_usable_row (clamp at 0 only) and "
+         "the last effect moves there; __exit__ emits only downward-clearing effects; scroll_down is a line feed at the "
+         "bottom inside a cursor save/restore.",
+    note="trusted: blessed/terminal scrolling semantics; not decided: scrollback content, top_usable_row as a number across "
+         "SIGWINCH",
+    design="DESIGN.md section 3 C07")
+CHECKS["C18"] = dict(
+    technique="regular-language comparison (DFA) of the report pattern against the CPR grammar, def-use of match groups to the result, read-size and loop-shape rules, affine effect summaries per loop path, Optional-int truthiness lint",
+    text="The cursor report pattern (located through re.search or a module-level re.compile) accepts, as a match of "
+         "everything read so far, exactly <anything incl. newlines><ESC[ or 0x9b>digits;digitsR (DFA inclusion both ways), "
+         "so all preceding bytes land in `extra`; the result is (int(row)-1, int(column)-1); only read(1) is used and the "
+         "match is attempted after every read; extra goes encoded to the callback or raises ValueError; OSError retries; in "
+         "the vertical-diff code every adjustment-loop path conserves movement (delta top_usable_row + delta cursor_dy == 0, "
+         "sign matching the guard), the first-call test is `is None`, the observed row is recorded on every path, the outer "
+         "loop ADDS every query's remainder and follows the busy/repeat flag protocol; Optional-int attributes are never "
+         "tested by truthiness.",
+    note="trusted: re semantics, CPR format; not decided: clamping bounds of the loops, blessed path, encodings",
+    design="DESIGN.md section 3 C18")
+
 NOT_APPLICABLE = [
     ("C06", "slicing/normalisation is integer arithmetic over run layouts; no structural clause is a necessary condition visible in the code shape"),
     ("C09", "five-way overlap arithmetic across runs; a sound static decision needs inductive integer invariants (solver family)"),
